@@ -42,6 +42,9 @@ def hierarchy(draw):
             d["imeths"].append(["%s_i%d" % (c.lower(), k), lit(), "public"])
         for k in range(draw(st.integers(0, 1))):
             d["cmeths"].append(["%s_c%d" % (c.lower(), k), lit()])
+        if d["cmeths"] and draw(st.integers(0, 3)) == 0:
+            # a class method and an instance method of one name (different literal types): both sides stay apart
+            d["cmeths"][0][0] = d["imeths"][0][0]
         d["sclass"] = draw(st.integers(0, 3)) == 0
         d["sclass_mid"] = draw(st.booleans())
         if draw(st.integers(0, 9)) < 4:
